@@ -93,8 +93,16 @@ class AbsTok(Tokenizer):
             raise TypeError('tokenize(None)')
         toks = cell.token_list()
         if self.return_set:
-            return dedupe(toks)
-        return toks
+            toks = dedupe(toks)
+        out = TokList(toks)
+        out.cell = cell
+        return out
+
+
+class TokList(list):
+    """token list that remembers the cell it came from (lets an uninterpreted similarity recognise
+    its arguments)"""
+    cell = None
 
 
 def dedupe(toks):
